@@ -30,6 +30,12 @@ def lit(v):
 
 SIDE = {"ser": "serialize", "de": "deserialize"}
 
+# field types: serde writes a key for every field that is not skipped, whatever its type (markers, unit,
+# empty arrays, boxes, borrows, options of unit ...); the key set must not depend on the type
+FIELD_TYPES = ["String", "i32", "PhantomData<u8>", "std::marker::PhantomData<String>", "core::marker::PhantomData<T0>", "()",
+               "[u8; 0]", "Box<String>", "std::borrow::Cow<'static, str>", "&'static str", "Option<()>", "Vec<u8>",
+               "(i32, String)", "Option<String>", "[i32; 4]", "std::collections::HashMap<String, i32>", "Option<Box<T0>>"]
+
 
 def meta_src(m, ws=0):
     """one meta item; ws: 0 usual spacing, 1 tight, 2 loose (proc_macro2 prints all three alike)"""
@@ -65,7 +71,7 @@ def attr_src(g, ws=0):
 
 def rust_source(c):
     ws = c.get("ws", 0)
-    out = ["use serde::{Deserialize, Serialize};", "", "#[derive(Debug, Clone, Serialize, Deserialize)]"]
+    out = ["use serde::{Deserialize, Serialize};", "use std::marker::PhantomData;", "", "#[derive(Debug, Clone, Serialize, Deserialize)]"]
     for g in c.get("cattrs", []):
         out.append(attr_src(g, ws))
     struct = c["kind"] == "struct"
@@ -74,7 +80,7 @@ def rust_source(c):
         for g in it.get("attrs", []):
             out.append("    " + attr_src(g, ws))
         if struct:
-            out.append("    pub %s: %s," % (it["ident"], "String" if k % 2 == 0 else "i32"))
+            out.append("    pub %s: %s," % (it["ident"], it.get("ty") or ("String" if k % 2 == 0 else "i32")))
         else:
             # unit, tuple and struct variants (StructParser marks them enum_variant / _tuple / _struct)
             tail = {"unit": "", "tuple": "(u32, String)", "struct": " { x_pos: i32, label: String }"}[it.get("shape", "unit")]
@@ -164,12 +170,28 @@ def has_tag(cattrs):
 
 def shaped(kind, cattrs, ident, attrs, k):
     it = {"ident": ident, "attrs": attrs}
+    if kind == "struct":
+        it["ty"] = FIELD_TYPES[k % len(FIELD_TYPES)]
     if kind == "enum":
         sh = ["unit", "tuple", "struct"][k % 3]
         if sh == "tuple" and has_tag(cattrs):      # serde rejects tuple variants in internally tagged enums
             sh = "struct"
         it["shape"] = sh
     return it
+
+
+def typed_fields():
+    """field types as a dimension of the key set: every type x a few rules x {no attribute, rename, skip,
+    default} next to an ordinary field (seed C06-8: a PhantomData field silently left out)."""
+    cases = []
+    for ti, ty in enumerate(FIELD_TYPES):
+        for ri, rule in enumerate([None, "camelCase", "SCREAMING-KEBAB-CASE"]):
+            for ai, attrs in enumerate([[], [[["rename", "renamed-key"]]], [[["skip"]]], [[["other", "default"]]]]):
+                items = [{"ident": "first_field", "attrs": []}, {"ident": "marker_field", "attrs": attrs, "ty": ty},
+                         {"ident": "last", "attrs": [], "ty": FIELD_TYPES[(ti + 3) % len(FIELD_TYPES)]}]
+                cases.append({"kind": "struct", "cattrs": cattrs_for(rule, ri + ai, "struct"), "items": items, "dfc": "snake_case",
+                              "ws": (ti + ai) % 3})
+    return cases
 
 
 def spellings():
@@ -287,6 +309,10 @@ def rand_container(rng, clean):
     # clean: the spellings outside C06-8 / C06-9 (variants 0-7 with a rule, 0-3 without)
     v = rng.randrange(8 if rule else 4) if clean else rng.randrange(12)
     cattrs = cattrs_for(rule, v, kind)
+    if kind == "struct":
+        for it in items:
+            if rng.random() < 0.4:
+                it["ty"] = rng.choice(FIELD_TYPES)
     if kind == "enum":
         for it in items:
             it["shape"] = rng.choice(["unit", "unit", "tuple", "struct"])
